@@ -747,7 +747,7 @@ func c10RandomMixed(r *Rng, n int) *c10Prog {
 	var odefs [][]int
 	for i, no := 0, r.Pick(3); i < no; i++ {
 		var od []int
-		for j, ne := 0, 1+r.Pick(3); j < ne; j++ {
+		for j, ne := 0, 2+r.Pick(3); j < ne; j++ {
 			od = append(od, r.Pick(g.nl))
 		}
 		odefs = append(odefs, od)
@@ -878,7 +878,7 @@ func c10RandomMixed(r *Rng, n int) *c10Prog {
 				g.ns++
 			} else {
 				ix := sArg(r.Pick(2)) // sometimes out of range: the let fails
-				if r.Chance(0.3) {
+				if r.Chance(0.5) {
 					ix = sLit(int64(r.Pick(len(odefs[o]))))
 				}
 				binds = append(binds, c10XB{Kind: "index", O: o, I: ix})
